@@ -32,6 +32,10 @@ var dOL, dOR, dTL, dTR = "{{", "}}", "{%", "%}"
 // wrapIncludes (C14): every include is bracketed by the harness's snap/mark tags.
 var wrapIncludes bool
 
+// includeMode (C14, with wrapIncludes): 0 = snap/include/mark, 1 = bare include,
+// 2 = include replaced by the reference tag refinc.
+var includeMode int
+
 func mk(l bool) string {
 	if l {
 		return "-"
@@ -56,7 +60,14 @@ func (n *TNode) write(sb *strings.Builder) {
 	case "tag":
 		if wrapIncludes && strings.HasPrefix(n.S, "include ") {
 			arg := strings.TrimPrefix(n.S, "include ")
-			sb.WriteString(dTL + " snap " + arg + " " + dTR + dTL + " include " + arg + " " + dTR + dTL + " mark " + dTR)
+			switch includeMode {
+			case 0:
+				sb.WriteString(dTL + " snap " + arg + " " + dTR + dTL + " include " + arg + " " + dTR + dTL + " mark " + dTR)
+			case 1: // bare include, trim markers kept
+				sb.WriteString(dTL + mk(n.TL) + " include " + arg + " " + mk(n.TR) + dTR)
+			case 2: // the harness's reference implementation in the same place
+				sb.WriteString(dTL + mk(n.TL) + " refinc " + arg + " " + mk(n.TR) + dTR)
+			}
 			return
 		}
 		sb.WriteString(dTL + mk(n.TL) + " " + n.S + " " + mk(n.TR) + dTR)
@@ -672,7 +683,11 @@ func (g *Gen) node(sc *scope, depth int) *TNode {
 			return &TNode{K: "tag", S: "rfile " + pick(g.r, g.incArgs)}
 		}
 		g.use("tag:include")
-		return &TNode{K: "tag", S: "include " + pick(g.r, g.incArgs)}
+		inc := &TNode{K: "tag", S: "include " + pick(g.r, g.incArgs)}
+		if wrapIncludes && g.feat["trim"] {
+			inc.TL, inc.TR = g.r.Chance(0.3), g.r.Chance(0.3) // only visible in include modes 1 and 2
+		}
+		return inc
 	case 14:
 		if g.r.Chance(0.3) {
 			g.use("tag:expand") // custom tag that uses Context.ExpandTagArg
